@@ -260,6 +260,8 @@ class Session:
             ref.modeldisc = self.disc.clone_silent()
         return ref
 
+    _ncalls = 0
+
     def call(self, op, f, cfl=1.0, tsave=(), stop=None, monitors=None, directives=None, intent=None):
         """make one real call and return the raw observation (floats/bytes), to be ranked by project()"""
         ref = self._reference(op)
@@ -273,6 +275,11 @@ class Session:
         kw = {}
         if monitors is not None:
             kw["monitors"] = monitors
+        # the 'verbose' directive only prints: one call in three (of the whole process, deterministic) carries it, output discarded
+        Session._ncalls += 1
+        chatty = op in ("solve", "restart") and Session._ncalls % 3 == 0
+        if chatty:
+            directives = dict(directives or {}, verbose=True)
         if directives:
             kw["directives"] = directives
         # the caller's own object is passed through: a list, a tuple or a numpy array ("array/list of time to save")
@@ -284,7 +291,12 @@ class Session:
             stop_given = None
         self.raised = None
         try:
-            res = getattr(self.solver, op)(f, cfl, tsave_arg, stop=stop, **kw)
+            if chatty:
+                import contextlib, io
+                with contextlib.redirect_stdout(io.StringIO()):
+                    res = getattr(self.solver, op)(f, cfl, tsave_arg, stop=stop, **kw)
+            else:
+                res = getattr(self.solver, op)(f, cfl, tsave_arg, stop=stop, **kw)
         except Exception as ex:     # an exception raised by flowdyn on an admissible call is an observation
             self.raised = type(ex).__name__ + ": " + str(ex)[:80]
             res = []
